@@ -2,7 +2,7 @@
 LEVEL = 'model_checking'
 
 QUICK = ['h_queues', 'h_loop_s0', 'h_loop_s1', 'h_loop_s6', 'h_loopi_s1']
-THOROUGH = QUICK + ['h_loop_s3', 'h_loop_s7', 'h_loop_s4', 'h_loopf_s0', 'h_loopf_s1', 'h_loopf_s6', 'h_loop3_s0']
+THOROUGH = QUICK + ['h_loop_s4', 'h_loop3_s0']      # measured: 50 s and 75 s; h_loop_s3/_s7 (parallel shapes) and the fully symbolic h_loopf_* exceed 5 min each and are in no tier
 
 
 def run(c):
